@@ -367,14 +367,23 @@ func ccCheck(c *core.Ctx, cases []wrCase) []core.Outcome {
 		}
 	}
 	// readAnswer: the class, the printed pattern, the category names and the runs of `(cc class pat (names …) run…)`
-	readAnswer := func(p *ccPending, line string) (cls, pat, names *sx, runs []*sx, ok bool) {
+	readAnswer := func(p *ccPending, line string) (cls, pat, names *sx, quick string, runs []*sx, ok bool) {
 		ans, err := parseSx(line)
-		if err != nil || ans.head() != "cc" || len(ans.args()) < 3 || ans.args()[2].head() != "names" {
+		if err != nil || ans.head() != "cc" || len(ans.args()) < 4 || ans.args()[2].head() != "names" || ans.args()[3].head() != "quick" ||
+			len(ans.args()[3].args()) != 1 {
 			failOn(p)("correspondence-break", "Cc:answer", "the Lean driver did not answer the request", "(cc …)", line+" for "+p.line(&cases[p.ci]))
-			return nil, nil, nil, nil, false
+			return nil, nil, nil, "", nil, false
 		}
 		a := ans.args()
-		return a[0], a[1], a[2], a[3:], true
+		return a[0], a[1], a[2], a[3].args()[0].atom, a[4:], true
+	}
+	// 3. the two "in use" analyses: the tree the second writer effectively compiles translates to Spec.quickPat
+	quickPat := func(p *ccPending, st string) {
+		o := &outs[p.ci]
+		o.Buckets = append(o.Buckets, "quickpat:"+st)
+		if st == "differs" || st == "untranslated" {
+			failOn(p)("correspondence-break", "Cc:quickpat", "toPatRoot of Writer.stripTree (the tree the second writer effectively compiles) is not Spec.quickPat of toPatRoot of the tree: captureSlotsInUse on the code and slotsInUse on the pattern select different groups", "same", st)
+		}
 	}
 	// 2. both sides of the statement inside Lean (runs), and the specification against the engine
 	sanity := func(p *ccPending, runs []*sx) {
@@ -411,11 +420,79 @@ func ccCheck(c *core.Ctx, cases []wrCase) []core.Outcome {
 				fail("correspondence-break", "Cc:answer", "the Lean driver did not run every position", fmt.Sprint(len(text)+1), sxRender(atts))
 				return
 			}
-			for i, a := range atts.list {
+			for i, at := range atts.list {
 				o.Buckets = append(o.Buckets, "sanity-attempts")
+				if at.head() != "at" || len(at.args()) != 2 {
+					fail("correspondence-break", "Cc:answer", "unreadable attempt", "(at (ok …) (q …))", sxRender(at))
+					continue
+				}
+				a, q := at.args()[0], at.args()[1]
+				attempt := func(useQuick bool) (m *regexp2.Match, after int, err error) {
+					defer func() {
+						if r := recover(); r != nil {
+							err = panicError{r}
+						}
+					}()
+					return regexp2.VerifAttemptAtEx(re, text, i, i, useQuick)
+				}
+				// the bool-only program (Props.C02.compile_correct_quick): inside Lean against the main program, then
+				// against the engine's own bool-only run and that against the engine's main run
+				quick := func(mainRan bool, mainM *regexp2.Match) {
+					switch q.head() {
+					case "noquick":
+						o.Buckets = append(o.Buckets, "quick:none")
+						if regexp2.VerifQuickCode(re) != nil {
+							fail("correspondence-break", "Cc:quick:presence", "the engine has a bool-only program, Writer.emitQuick builds none", "nil", "QuickCodes")
+						}
+						return
+					case "qfuel":
+						o.Buckets = append(o.Buckets, "quick:fuel")
+						return
+					case "qdiff":
+						w := "unknown"
+						if len(q.args()) > 0 {
+							w = q.args()[0].atom
+						}
+						fail("correspondence-break", "Cc:quick:"+w, fmt.Sprintf("the interpreter model on the bool-only program (Writer.emitQuick) and on the main program end differently (%s) on %q at %d", sxRender(q), string(text), i), "(q …)", sxRender(q))
+						return
+					case "q":
+					default:
+						fail("correspondence-break", "Cc:answer", "unreadable attempt", "(q …)", sxRender(q))
+						return
+					}
+					o.Buckets = append(o.Buckets, "quick:attempts")
+					if regexp2.VerifQuickCode(re) == nil {
+						fail("correspondence-break", "Cc:quick:presence", "Writer.emitQuick builds a bool-only program, the engine has none", "QuickCodes", "nil")
+						return
+					}
+					if !engine {
+						return
+					}
+					qm, after, err := attempt(true)
+					if err != nil {
+						if _, isPanic := err.(panicError); isPanic {
+							fail("impl-violation", "Cc:engine-panic", fmt.Sprintf("the engine panicked running the bool-only program on %q at %d: %v", string(text), i, err), sxRender(q), err.Error())
+						} else {
+							o.Buckets = append(o.Buckets, "engine-error")
+						}
+						return
+					}
+					got := "(q none)"
+					if qm != nil {
+						got = fmt.Sprintf("(q %d %d %d)", qm.RuneIndex, qm.RuneLength, after)
+						o.Buckets = append(o.Buckets, "quick:match")
+					}
+					if got != sxRender(q) {
+						fail("impl-violation", "Cc:quick:engine", fmt.Sprintf("one attempt of the engine's bool-only program differs from the model's (verdict, span of group 0, final text position): input %q at %d (\\G there)", string(text), i), sxRender(q), got)
+					}
+					if mainRan && (qm != nil) != (mainM != nil) {
+						fail("impl-violation", "Cc:quick:engine-main", fmt.Sprintf("the engine's bool-only program and its main program decide differently: input %q at %d (\\G there)", string(text), i), fmt.Sprint(mainM != nil), fmt.Sprint(qm != nil))
+					}
+				}
 				switch a.head() {
 				case "fuel":
 					o.Buckets = append(o.Buckets, "sanity-fuel")
+					quick(false, nil)
 					continue
 				case "diff":
 					w := "unknown"
@@ -430,23 +507,18 @@ func ccCheck(c *core.Ctx, cases []wrCase) []core.Outcome {
 					continue
 				}
 				if !engine {
+					quick(false, nil)
 					continue
 				}
 				want := sxRender(a)
-				m, err := func() (m *regexp2.Match, err error) {
-					defer func() {
-						if r := recover(); r != nil {
-							err = panicError{r}
-						}
-					}()
-					return regexp2.VerifAttemptAt(re, text, i, i, false)
-				}()
+				m, _, err := attempt(false)
 				if err != nil {
 					if _, isPanic := err.(panicError); isPanic {
 						fail("impl-violation", "Cc:engine-panic", fmt.Sprintf("the engine panicked on %q at %d: %v", string(text), i, err), want, err.Error())
 					} else {
 						o.Buckets = append(o.Buckets, "engine-error")
 					}
+					quick(false, nil)
 					continue
 				}
 				got := "(ok none)"
@@ -457,6 +529,7 @@ func ccCheck(c *core.Ctx, cases []wrCase) []core.Outcome {
 				if got != want {
 					fail("impl-violation", "Cc:engine", fmt.Sprintf("one attempt of the engine differs from the specification on the engine's own tree: input %q at %d (\\G there)", string(text), i), want, got)
 				}
+				quick(true, m)
 			}
 		}
 	}
@@ -464,7 +537,7 @@ func ccCheck(c *core.Ctx, cases []wrCase) []core.Outcome {
 	var lines2 []string
 	for pi, p := range pend {
 		o, fail := &outs[p.ci], failOn(p)
-		cls, leanPat, names, runs, ok := readAnswer(p, res[pi])
+		cls, leanPat, names, qst, runs, ok := readAnswer(p, res[pi])
 		if !ok {
 			continue
 		}
@@ -521,6 +594,7 @@ func ccCheck(c *core.Ctx, cases []wrCase) []core.Outcome {
 			continue
 		}
 		if covered {
+			quickPat(p, qst)
 			sanity(p, runs)
 		}
 	}
@@ -531,8 +605,9 @@ func ccCheck(c *core.Ctx, cases []wrCase) []core.Outcome {
 			return outs
 		}
 		for pi, p := range again {
-			if _, _, _, runs, ok := readAnswer(p, res2[pi]); ok {
+			if _, _, _, qst, runs, ok := readAnswer(p, res2[pi]); ok {
 				outs[p.ci].Buckets = append(outs[p.ci].Buckets, "sanity-on-lean-translation")
+				quickPat(p, qst)
 				sanity(p, runs)
 			}
 		}
@@ -558,7 +633,7 @@ func ccCorpus() []wrCase {
 func ccLeg(c *core.Ctx, quick, thorough int) {
 	core.RunLeg(c, core.Leg[wrCase]{
 		Name: "Cc", Kind: "correspondence(compile-correctness tie)",
-		Rule:   "patterns and option sets of leg Wr (same generator and corpus). For each: syntax.Parse; the root, (Captop, Capnumlist, Caps, RightToLeft) and the RE2|ECMAScript bit go to the Lean driver, which answers (a) the coverage class: the smallest k ≤ 9 with Compile.InFrag k (the fragments of the theorems compile_correct_T1..T3, T4a..T4e = tiers 4..8; tier 9 = ECMAScript boundaries, defined, not proved), or the first thing in a pre-order walk that keeps the tree outside; (b) Compile.toPatRoot as an S-expression, which must equal the one gen.FromGoTree builds for the same tree (named-class ids in order of first use included) — trees FromGoTree rejects are bucketed (a covered one among them gets its environment rows from the category names the driver reports and is run in a second request); (c) for covered trees, on 3-4 inputs derived from the tree (≤ 8 runes, would-be matches, near misses, context) and EVERY start position (\\G there): VM.run on Writer.emit (sets read through Compile.readSet on the specification's environment, word characters and named-class rows from Go's unicode tables) against Spec.attempt on toPat in the direction of the tree option RightToLeft — matched, the live prefix of every capture slot = slotLog, final text position; the specification's verdict and group 0 span must also equal regexp2's VerifAttemptAt on the compiled pattern (not compared for case-insensitive backreferences and for backreferences under ECMAScript: the statement's environment has toLower = id and ecma = false; attempts that exhaust the fuel of 20000 iterations are bucketed). non-trivial = covered; distinct by (options, pattern)",
+		Rule:   "patterns and option sets of leg Wr (same generator and corpus). For each: syntax.Parse; the root, (Captop, Capnumlist, Caps, RightToLeft) and the RE2|ECMAScript bit go to the Lean driver, which answers (a) the coverage class: the smallest k ≤ 9 with Compile.InFrag k (the fragments of the theorems compile_correct_T1..T3, T4a..T4e = tiers 4..8; tier 9 = ECMAScript boundaries, defined, not proved), or the first thing in a pre-order walk that keeps the tree outside; (b) Compile.toPatRoot as an S-expression, which must equal the one gen.FromGoTree builds for the same tree (named-class ids in order of first use included) — trees FromGoTree rejects are bucketed (a covered one among them gets its environment rows from the category names the driver reports and is run in a second request); (c) for covered trees, on 3-4 inputs derived from the tree (≤ 8 runes, would-be matches, near misses, context) and EVERY start position (\\G there): VM.run on Writer.emit (sets read through Compile.readSet on the specification's environment, word characters and named-class rows from Go's unicode tables) against Spec.attempt on toPat in the direction of the tree option RightToLeft — matched, the live prefix of every capture slot = slotLog, final text position; the specification's verdict and group 0 span must also equal regexp2's VerifAttemptAt on the compiled pattern (not compared for case-insensitive backreferences and for backreferences under ECMAScript: the statement's environment has toLower = id and ecma = false; attempts that exhaust the fuel of 20000 iterations are bucketed); (d) the bool-only program (Props.C02.compile_correct_quick): for covered trees the driver also runs VM.run on Writer.emitQuick on the same inputs and positions and compares its final state with the main program's — verdict, on a match the final text position, the captures of every slot in use, no capture in a dropped slot (Cc:quick:<what>) —, its verdict / group 0 span / final text position must equal regexp2's VerifAttemptAtEx(useQuick=true) (Cc:quick:engine), the engine's bool-only verdict must equal its main verdict (Cc:quick:engine-main), presence of QuickCodes must agree (Cc:quick:presence), and toPatRoot of Writer.stripTree must print as Spec.quickPat of toPatRoot (Cc:quickpat: the two 'in use' analyses select the same groups). non-trivial = covered; distinct by (options, pattern)",
 		Corpus: ccCorpus(), N: c.N(quick, thorough), Gen: wrGen, Check: ccCheck, Batch: 500,
 	})
 }
